@@ -303,7 +303,11 @@ func (m Message) GetMetaSeqData(bt *[]byte) bool {
 	}
 
 	if bt != nil {
-		data := m.metaDataWithoutVarlength()
+		// the length field may take more than one byte
+		data, err := utils.ReadVarLengthData(bytes.NewReader(m[2:]))
+		if err != nil {
+			return false
+		}
 		*bt = data
 	}
 	return true
